@@ -72,6 +72,10 @@ type Contract struct {
 	NoOvf       bool
 	Skip        []string // safety classes not claimed for this function
 	CallAs      []*CallAs
+	NoShared    bool   // `nosharedwrites`: with `modifies *` (effects of callees are unconstrained) the function's own stores, map updates, appends and Once.Do calls must still hit memory allocated during the call
+	RecvAlias   string // contracts instantiated from a `methods` default: the name the clauses use for the receiver
+	FromDefault string // key of the `methods` default this contract was instantiated from
+	Dispatch    []*DispatchSpec // call sites of a function value dispatched over named methods (bound method values)
 	Also        []string  // functype contracts this function must also satisfy
 	CapReq      []*Clause // preconditions on captured variables, asserted where the closure is created
 	Assumes     []*Clause // assumed in the function's own proof, not checked at call sites (listed as assumptions)
@@ -83,6 +87,15 @@ type Contract struct {
 	Line        int
 	Trusted     bool // from /verif/trusted (assumed)
 	Uses        []string
+}
+
+// DispatchSpec: `dispatch fn#k: (*T).M1, (*T).M2` - at the k-th call of the function value fn the verifier splits
+// on the identity of the value: for a bound method value of one of the listed methods the method's own contract is
+// used with the bound receiver; otherwise the functype contract (or havoc).
+type DispatchSpec struct {
+	Anchor  Anchor
+	Targets []string
+	Src     string
 }
 
 // CallAs replaces the callee of a call site by a named model contract whose
@@ -148,11 +161,11 @@ func NewContractSet() *ContractSet {
 }
 
 var clauseKeywords = map[string]bool{
-	"func": true, "iface": true, "functype": true, "trusted": true, "ghost": true, "define": true,
+	"func": true, "methods": true, "iface": true, "functype": true, "trusted": true, "ghost": true, "define": true,
 	"axiom": true, "lemma": true, "props": true, "safety": true, "requires": true, "ensures": true,
 	"modifies": true, "panics": true, "panics-iff": true, "nopanic": true, "loop": true, "decreases": true,
-	"assert": true, "inline": true, "pure": true, "allocates": true, "global": true, "ovf": true, "noovf": true,
-	"uninterpreted": true, "opaque": true, "use": true, "skip": true, "model": true, "call": true, "also": true, "requires-captured": true, "assumes": true,
+	"assert": true, "inline": true, "nosharedwrites": true, "pure": true, "allocates": true, "global": true, "ovf": true, "noovf": true,
+	"uninterpreted": true, "opaque": true, "use": true, "skip": true, "model": true, "call": true, "dispatch": true, "also": true, "requires-captured": true, "assumes": true,
 }
 
 var tagRe = regexp.MustCompile(`^([a-z\-]+)\[([A-Z0-9, ]+)\]$`)
@@ -221,7 +234,7 @@ func (cs *ContractSet) LoadContractFile(path, pkgPath string, trusted bool) erro
 	}
 	for _, rc := range raws {
 		switch rc.kw {
-		case "func", "iface", "functype", "trusted":
+		case "func", "iface", "functype", "trusted", "methods":
 			cur = &Contract{Kind: rc.kw, PkgPath: pkgPath, Loops: map[int]*LoopSpec{}, File: path, Line: rc.line, Trusted: trusted || rc.kw == "trusted"}
 			target := rc.text
 			quoted := false
@@ -280,6 +293,13 @@ func (cs *ContractSet) LoadContractFile(path, pkgPath string, trusted bool) erro
 					cur.Target = target
 				}
 				key = "functype::" + target
+			}
+			if rc.kw == "methods" {
+				// methods (*T) (recv): default contract of every exported method of T that has no contract of its own
+				key = "methods::" + pkgPath + "::" + target
+				if len(cur.ParamNames) != 1 {
+					return fail(rc.line, "expected: methods (*T) (receiverName)")
+				}
 			}
 			if rc.kw == "iface" {
 				if j := strings.LastIndex(target, "."); j >= 0 && !strings.Contains(target[:j], ".") && pkgPath != "" {
@@ -462,6 +482,8 @@ func (cs *ContractSet) LoadContractFile(path, pkgPath string, trusted bool) erro
 				cur.NoPanic = true
 			case "pure":
 				cur.Pure = true
+			case "nosharedwrites":
+				cur.NoShared = true
 			case "inline":
 				cur.Inline = true
 			case "allocates":
@@ -470,6 +492,18 @@ func (cs *ContractSet) LoadContractFile(path, pkgPath string, trusted bool) erro
 				cur.Ovf = true
 			case "noovf":
 				cur.NoOvf = true
+			case "dispatch":
+				a, _, rest, err := parseAnchor("before " + rc.text)
+				if err != nil {
+					return fail(rc.line, "expected: dispatch callee#k: (*T).M, ...")
+				}
+				ds := &DispatchSpec{Anchor: a, Src: rc.text}
+				for _, t := range strings.Split(rest, ",") {
+					if t = strings.TrimSpace(t); t != "" {
+						ds.Targets = append(ds.Targets, t)
+					}
+				}
+				cur.Dispatch = append(cur.Dispatch, ds)
 			case "call":
 				// call callee#k as model(args)
 				parts := strings.SplitN(rc.text, " as ", 2)
